@@ -4,40 +4,18 @@ import (
 	"fmt"
 	"strings"
 
-	apb "github.com/google/fhir/go/proto/google/fhir/proto/annotations_go_proto"
+	"github.com/verily-src/fhirpath-go/fhirpath/verifh/core"
 	"github.com/verily-src/fhirpath-go/fhirpath/verifh/lib"
-	"google.golang.org/protobuf/proto"
-	"google.golang.org/protobuf/reflect/protoreflect"
 )
 
 func main() {
-	seen := map[protoreflect.FullName]bool{}
-	var walk func(md protoreflect.MessageDescriptor)
-	n, bad := 0, 0
-	walk = func(md protoreflect.MessageDescriptor) {
-		if seen[md.FullName()] {
-			return
+	big := "1" + strings.Repeat("0", 400) + ".0"
+	for _, src := range []string{"(1 '').abs()", "(1 '') + (1 '')", big + ".sqrt()", big + ".log(2)", big + ".ln()", big + ".exp()", big + ".power(2)", "2.power(" + big + ")", big + ".round(2)", "16.log(" + big + ")", big + ".truncate()", "(1 '').toString()", "(1 '') = (1 '')", "(1 '') < (2 '')", "1 '' * 2"} {
+		r := lib.Run(src, nil, nil)
+		s := src
+		if len(s) > 40 {
+			s = s[:20] + "..." + s[len(s)-15:]
 		}
-		seen[md.FullName()] = true
-		if f := md.Fields().ByName("value"); f != nil && (f.Kind() == protoreflect.EnumKind) {
-			n++
-			base := proto.GetExtension(md.Options(), apb.E_FhirProfileBase)
-			if !strings.HasSuffix(string(md.Name()), "Code") {
-				bad++
-				fmt.Println("enum-valued, not *Code:", md.FullName(), base)
-			}
-		}
-		if f := md.Fields().ByName("value"); f != nil && f.Kind() == protoreflect.StringKind && strings.HasSuffix(string(md.Name()), "CodeType") {
-			fmt.Println("string CodeType:", md.FullName())
-		}
-		for i := 0; i < md.Fields().Len(); i++ {
-			if m := md.Fields().Get(i).Message(); m != nil {
-				walk(m)
-			}
-		}
+		fmt.Println(s, "=>", core.Short(r.String(), 160))
 	}
-	for _, tn := range lib.ResourceTypeNames() {
-		walk(lib.NewResource(tn).ProtoReflect().Descriptor())
-	}
-	fmt.Println(n, bad)
 }
